@@ -84,3 +84,10 @@ package signature
 //@   trusted
 //@   ensures ChainSep(result) == old(exists j int :: 0 <= j && j < len(opts) && IsChainSepOpt(opts[j]))
 //@   note registers the context with the options applied in order; ChainSep(c) is "the registry entry of c has chainSeparation set" (the link to PrepareSignerContext's opts.chainSeparation is the sync.Map registry, which is not modelled)
+
+// ---- Ed25519 verification options (C09): small-order keys and points are rejected ----
+
+//@ init defaultOptions
+//@   props C09
+//@   ensures defaultOptions != nil && defaultOptions.Verify != nil && !defaultOptions.Verify.AllowSmallOrderA && !defaultOptions.Verify.AllowSmallOrderR
+//@   note with a small-order public key (or R) the Ed25519 verification equation no longer depends on the message: one fixed signature would verify over every transaction. The process-wide verification options used by PublicKey.Verify and the batch verifier refuse both
